@@ -72,6 +72,10 @@ type jsonlineDecoder struct {
 }
 
 func (d *jsonlineDecoder) Release(a core.Ammo) {
+	if d.ammos != nil {
+		// Entries of a JSON array are decoded once and handed out again in every pass.
+		return
+	}
 	if am, ok := a.(*ammo.Ammo); ok {
 		am.Reset()
 		d.pool.Put(am)
